@@ -1596,3 +1596,70 @@ class ExampleCount(Monitor):
         if want is not None and k.received_parts_count != want:
             raise Violation('documented_count', f'{w.spec["name"]}: sink received {k.received_parts_count} parts, the example documents {want}')
         w.facts.append('documented_count_checked')
+
+
+# ============================================================================ C14 (a): splitting a run
+
+@monitor('splitinv')
+class SplitInv(Monitor):
+    '''C14: running for a and then for b gives the same evolution as running once for a+b with the tie-break choices
+    held fixed.  One-step bisimulation at every explored split point: for every event that can be dispatched next,
+    the state reached from "just before the split" equals the state reached from "after split and resume"; by state
+    matching the equality extends to whole evolutions.'''
+    prop = 'C14'
+    _canon_skip = ('snap',)
+
+    def __init__(self):
+        self.snap = None
+        self.dirty = False
+
+    def presplit(self, w):
+        self.snap = None
+        self.dirty = False
+        if w.mode != 'e1':
+            return       # the comparison forks E1 worlds; E2 replays only re-derive final states (see linejobs.replay_line)
+        self.snap = w.fork()
+
+    def after(self, w, label, ev):
+        if label[0] == 'xop':
+            self.dirty = True        # something was done between the runs: the two evolutions may differ legitimately
+
+    def resumed(self, w):
+        snap, self.snap = self.snap, None
+        if snap is None or self.dirty or w.mode != 'e1':
+            return
+        from . import canon
+        cur = w.fork()
+        a0 = restore(snap)
+        b0 = restore(cur)
+        la = [l for l in a0.menu() if l[0] == 'ev']
+        lb = [l for l in b0.menu() if l[0] == 'ev']
+        if sorted(la) != sorted(lb):
+            raise Violation('split_invariance', f'at t={w.env.now}: events offered next without the split {sorted(la)} vs after '
+                                                f'split+resume {sorted(lb)}')
+        for lab in la:
+            a = restore(snap)
+            b = restore(cur)
+            ra = rb = None
+            try:
+                a.apply(lab)
+            except Violation as v:
+                ra = v.clause
+            try:
+                b.apply(lab)
+            except Violation as v:
+                rb = v.clause
+            if ra != rb:
+                raise Violation('split_invariance', f'dispatching {lab}: violation {ra} without the split, {rb} with it')
+            if ra is not None:
+                continue
+            a.splits_left, a.steps = b.splits_left, b.steps
+            for m in a.monitors + b.monitors:
+                if isinstance(m, SplitInv):
+                    m.snap, m.dirty = None, False
+            if a.digest() != b.digest():
+                da, db = canon.dump(a), canon.dump(b)
+                i = next((k for k, (x, y) in enumerate(zip(da, db)) if x != y), min(len(da), len(db)))
+                raise Violation('split_invariance', f'run split at t={w.env.now}: after dispatching {lab} the state differs from the '
+                                                    f'unsplit run; first difference near ...{da[max(0, i - 6):i + 3]} vs ...{db[max(0, i - 6):i + 3]}')
+        w.facts.append('split_point_compared')
